@@ -53,7 +53,10 @@ class C19(Check):
                          'atv_quantity_scalar', 'atv_quantity_array', 'atv_flavour_agreement', 'atv_input_unchanged',
                          'ab_rows', 'ab_negative_flux', 'ft_overlap_bands', 'ft_no_overlap_bands', 'ft_masked_pixels',
                          'ft_wset_vs_waveimg', 'ft_toair_calls', 'ft_model_compared', 'ft_linear', 'ft_const',
-                         'ft_decreasing_wavelength')
+                         'ft_decreasing_wavelength', 'ft_spliced_cases', 'ft_dispersion_ratio_ge_10',
+                         'ft_locally_reversed_or_duplicated', 'ft_dispersion_step_inside_band',
+                         'ft_single_bright_pixel_traces', 'ft_bands_with_1_to_3_pixels', 'ft_inputs_unchanged',
+                         'atv_repeat_calls', 'ab_repeat_calls')
     MIN_NONTRIVIAL = 20
 
     # ------------------------------------------------------------------ setup
@@ -105,10 +108,11 @@ class C19(Check):
             'atv_scalars': 120 if q else 4000,
             'atv_arrays': 160 if q else 6000,
             'flux2ab': 120 if q else 4000,
-            'ft_sdss': 50 if q else 700,
-            'ft_narrow': 40 if q else 600,
-            'ft_outband': 30 if q else 400,
-            'ft_noisy': 30 if q else 400,
+            'ft_sdss': 40 if q else 700,
+            'ft_narrow': 32 if q else 600,
+            'ft_outband': 24 if q else 400,
+            'ft_noisy': 24 if q else 400,
+            'ft_spliced': 48 if q else 1000,
         }
 
     # ------------------------------------------------------------------ gen
@@ -186,7 +190,39 @@ class C19(Check):
                 'layout': rng.choice(['c', 'c', 'fortran', 'strided', 'readonly']),
                 'dtype': rng.choice(['f8', 'f8', 'f8', 'f4'])}
 
+    @staticmethod
+    def _gen_mask(rng, g, nT, nx):
+        # mask: every trace keeps >= 1 good pixel
+        mk = rng.choice(['sparse', 'sparse', 'runs', 'edges', 'heavy', 'onegood'])
+        mask = np.zeros((nT, nx), dtype=int)
+        for t in range(nT):
+            if mk == 'sparse':
+                mask[t] = g.uniform(size=nx) < rng.uniform(0.01, 0.3)
+            elif mk == 'runs':
+                for _ in range(rng.randint(1, 5)):
+                    s = rng.randint(0, nx - 1)
+                    mask[t, s:s + rng.randint(1, max(2, nx // 6))] = 1
+            elif mk == 'edges':
+                mask[t, :rng.randint(1, nx // 3)] = 1
+                mask[t, nx - rng.randint(1, nx // 3):] = 1
+            elif mk == 'heavy':
+                mask[t] = g.uniform(size=nx) < 0.9
+            else:
+                mask[t] = 1
+                mask[t, rng.randint(0, nx - 1)] = 0
+            if t > 0 and rng.random() < 0.2:
+                mask[t] = 0                       # an unmasked trace among masked ones
+            if mask[t].all():
+                mask[t, rng.randint(0, nx - 1)] = 0
+        if not mask.any():
+            mask[0, rng.randint(0, nx - 1)] = 1
+            if mask[0].all():
+                mask[0, 0] = 0
+        return mask
+
     def _gen_ft(self, cls, rng, i):
+        if cls == 'ft_spliced':
+            return self._gen_spliced(rng, i)
         g = np_rng(rng)
         nT = rng.randint(1, 6)
         nx = rng.randint(50, 600) if cls != 'ft_sdss' else rng.randint(200, 600)
@@ -245,32 +281,7 @@ class C19(Check):
                 f = f + 40.0 * np.arange(nT)[:, None] * rng.choice([-1, 1])     # traces at distinct levels
             return f * scale
         f1, f2 = mkflux(), mkflux()
-        # mask: every trace keeps >= 1 good pixel
-        mk = rng.choice(['sparse', 'sparse', 'runs', 'edges', 'heavy', 'onegood'])
-        mask = np.zeros((nT, nx), dtype=int)
-        for t in range(nT):
-            if mk == 'sparse':
-                mask[t] = g.uniform(size=nx) < rng.uniform(0.01, 0.3)
-            elif mk == 'runs':
-                for _ in range(rng.randint(1, 5)):
-                    s = rng.randint(0, nx - 1)
-                    mask[t, s:s + rng.randint(1, max(2, nx // 6))] = 1
-            elif mk == 'edges':
-                mask[t, :rng.randint(1, nx // 3)] = 1
-                mask[t, nx - rng.randint(1, nx // 3):] = 1
-            elif mk == 'heavy':
-                mask[t] = g.uniform(size=nx) < 0.9
-            else:
-                mask[t] = 1
-                mask[t, rng.randint(0, nx - 1)] = 0
-            if t > 0 and rng.random() < 0.2:
-                mask[t] = 0                       # an unmasked trace among masked ones
-            if mask[t].all():
-                mask[t, rng.randint(0, nx - 1)] = 0
-        if not mask.any():
-            mask[0, rng.randint(0, nx - 1)] = 1
-            if mask[0].all():
-                mask[0, 0] = 0
+        mask = self._gen_mask(rng, g, nT, nx)
         mval = rng.choice([1, 1, 64, -1, 2 ** 20])
         garbage = rng.choice(['nan', 'inf', 'huge', 'random', 'neg'])
         return {'kind': 'ft', 'cls': cls, 'nT': nT, 'nx': nx, 'func': func, 'coeff': coeff, 'noise': noise,
@@ -281,6 +292,121 @@ class C19(Check):
                 'mask': mask.tolist(), 'mval': mval, 'maskdtype': rng.choice(['int', 'bool', 'uint8', 'float']),
                 'garbage': garbage, 'lin_masked': rng.random() < 0.4, 'const_masked': rng.random() < 0.4,
                 'fdtype': rng.choice(['f8', 'f8', 'f8', '>f8', 'f4'])}
+
+    # wavelength solutions that are legitimate but far from a polynomial in pixel number: arms of different
+    # dispersion spliced together, a step of dispersion inside a band, arms that overlap (wavelengths locally
+    # run backwards), repeated pixels, only 1-3 pixels inside a band; flux concentrated on few pixels.
+    def _gen_spliced(self, rng, i):
+        g = np_rng(rng)
+        nx = rng.randint(60, 500)
+        nT = rng.randint(2, 8)
+        wkind = rng.choice(['two_arm', 'two_arm', 'three_arm', 'step_in_band', 'step_in_band', 'overlap', 'dup',
+                            'few_in_band'])
+        spacing = rng.choice(['lin', 'log'])
+        band = rng.randrange(5)
+        lamb, resb = self.filters[band]
+        sup = lamb[resb > 0]
+        blo, bhi = float(sup.min()), float(sup.max())
+
+        def row():
+            ratio = 10 ** rng.uniform(np.log10(2.0), np.log10(30.0))
+            if wkind == 'few_in_band':
+                dcoarse = (bhi - blo) / rng.uniform(1.2, 3.5)
+                disp = [dcoarse / ratio, dcoarse]
+                lams = blo - rng.uniform(0.0, 0.5) * dcoarse
+            else:
+                dfine = 10 ** rng.uniform(-0.3, 1.0)
+                disp = [dfine, dfine * ratio]
+                if rng.random() < 0.35:
+                    disp.reverse()
+                if wkind == 'three_arm':
+                    disp.append(dfine * 10 ** rng.uniform(0.0, np.log10(30.0)))
+                if wkind == 'step_in_band':
+                    lams = rng.uniform(blo + 0.2 * (bhi - blo), bhi - 0.2 * (bhi - blo))
+                else:
+                    lams = rng.uniform(3300.0, 10500.0)
+            m = len(disp)
+            # the finest arm gets most of the pixels
+            fine = disp.index(min(disp))
+            share = [rng.uniform(0.5, 1.0) for _ in range(m)]
+            share[fine] = rng.uniform(1.5, 6.0)
+            tot = sum(share)
+            n = [max(4, int(round((nx - 1) * sh / tot))) for sh in share]
+            n[fine] += (nx - 1) - sum(n)
+            if n[fine] < 4:
+                return None
+            steps = np.concatenate([np.full(nk, dk) for nk, dk in zip(n, disp)])
+            if wkind == 'overlap':
+                steps[n[0]] = -rng.uniform(1.0, max(1.5, 0.3 * n[0])) * disp[0]
+            if wkind == 'dup':
+                for _ in range(rng.randint(1, 5)):
+                    steps[rng.randint(0, nx - 2)] = 0.0
+            if spacing == 'log' and np.abs(steps).sum() / lams <= 2.5:
+                ls = steps / lams
+                start = lams * np.exp(-n[0] * disp[0] / lams)
+                w = start * np.exp(np.concatenate([[0.0], np.cumsum(ls)]))
+            else:
+                start = max(1200.0, lams - n[0] * disp[0])
+                w = start + np.concatenate([[0.0], np.cumsum(steps)])
+            if not (w > 500.0).all():
+                return None
+            if rng.random() < 0.25:
+                w = w[::-1]
+            return w
+        shared = rng.random() < 0.7
+        rows = []
+        for t in range(1 if shared else nT):
+            w = None
+            for _ in range(20):
+                w = row()
+                if w is not None:
+                    break
+            if w is None:
+                return None
+            rows.append(w)
+        wave = np.array([rows[0] if shared else rows[t] for t in range(nT)])
+        scale = rng.choice([1.0, 1.0, 1.0e-17, 1.0e4])
+
+        def mkflux():
+            fkind = rng.choice(['delta', 'delta', 'delta', 'tophat', 'gauss', 'step', 'spikes'])
+            amp = rng.choice([1.0, 10.0, -5.0]) * scale
+            if rng.random() < 0.5:
+                f = np.zeros((nT, nx))
+            else:
+                f = g.uniform(0.0, 0.01, (nT, nx)) * abs(amp)
+            b = band if rng.random() < 0.6 else rng.randrange(5)
+            Rb = R.response(self.filters, wave)[b]
+            x = np.arange(nx)
+            for t in range(nT):
+                idx = np.nonzero(Rb[t] > 0)[0]
+                if idx.size == 0:
+                    idx = x
+                # the bright feature moves across the band from trace to trace
+                q = min(idx.size - 1, int(idx.size * (t + rng.random()) / nT))
+                p = int(idx[q])
+                if fkind == 'delta':
+                    f[t, p] += amp
+                elif fkind == 'tophat':
+                    f[t, p:p + rng.randint(2, max(3, idx.size // 3))] += amp
+                elif fkind == 'gauss':
+                    f[t] += amp * np.exp(-0.5 * ((x - p) / rng.uniform(1.0, 10.0)) ** 2)
+                elif fkind == 'step':
+                    f[t] += amp * ((x >= p) if rng.random() < 0.5 else (x < p))
+                else:
+                    for pp in rng.sample(list(idx), min(3, idx.size)):
+                        f[t, int(pp)] += amp * rng.uniform(0.3, 1.0)
+            return f, fkind
+        (f1, k1), (f2, k2) = mkflux(), mkflux()
+        mask = self._gen_mask(rng, g, nT, nx)
+        return {'kind': 'ft', 'cls': 'ft_spliced', 'nT': nT, 'nx': nx, 'func': None, 'coeff': None, 'noise': None,
+                'wave': wave.tolist() if not shared else [wave[0].tolist()], 'wkind': wkind, 'f1kind': k1, 'f2kind': k2,
+                'primary': 'waveimg', 'toair': rng.random() < 0.3, 'f1': f1.tolist(), 'f2': f2.tolist(),
+                'a': rng.uniform(-3, 3), 'b': rng.uniform(-3, 3),
+                'const': rng.choice([1.0, -2.5, 3.5, 1.0e-17, 12345.678, rng.uniform(-10, 10)]),
+                'mask': mask.tolist(), 'mval': rng.choice([1, 1, 64, -1]),
+                'maskdtype': rng.choice(['int', 'bool', 'uint8', 'float']),
+                'garbage': rng.choice(['nan', 'inf', 'huge', 'random', 'neg']), 'lin_masked': rng.random() < 0.4,
+                'const_masked': rng.random() < 0.4, 'fdtype': rng.choice(['f8', 'f8', 'f8', '>f8', 'f4'])}
 
     # ------------------------------------------------------------------ run
     def run(self, case, out):
@@ -386,6 +512,13 @@ class C19(Check):
         # 4. round trip through the inverse, feeding the answer as it came back
         ybefore = _bytes(y.value if isq else y)
         z = inv(y)
+        # ... and the same call once more on the same object: nothing may have gone stale in between
+        y2 = fn(x)
+        same = (hasattr(y2, 'unit') == isq) and (not isq or y2.unit == self.uobj[unit]) and \
+            _bytes(y2.value if isq else y2) == ybefore and snap() == before
+        out.expect(same, 'repeat-call', 'second %s call on the same %s%s differs from the first, or the argument changed' % (
+            fname, flavour, '' if unit is None else ' [' + unit + ']'))
+        out.count('atv_repeat_calls')
         out.expect(_bytes(y.value if isq else y) == ybefore, 'input-modified', '%s changed its argument (%s)' % (INV[fname], flavour))
         if isq:
             if not out.expect(hasattr(z, 'unit') and z.unit == self.uobj[unit], 'caller-unit',
@@ -433,6 +566,7 @@ class C19(Check):
                               '%s(float64 array) returned %r' % (fname, type(y).__name__)):
                 continue
             self._one(out, fname, (x, x), lam1, None, None, 'array1d')
+            first_answer = _bytes(base1)
             # scalar flavours
             for j in range(case['scalars']):
                 l = float(lam1[j])
@@ -462,6 +596,10 @@ class C19(Check):
                     lamq = np.array(q.value, dtype=float) * UNITS[un]
                     self._one(out, fname, (q, vals[1]), lamq, un, base, 'quantity-array-' + case['layout'])
                     out.count('atv_quantity_array')
+            # after all flavours have gone through: the plain array answer is still what it was at the start
+            again = np.asarray(getattr(self.A, fname)(lam1.copy()), dtype=float)
+            out.expect(_bytes(again) == first_answer, 'repeat-call',
+                       '%s(float64 array) answers differently after calls with other input flavours' % fname)
 
     # ---- sdssflux2ab ----------------------------------------------------
     def _run_ab(self, case, out):
@@ -532,6 +670,7 @@ class C19(Check):
         out.expect(bool((np.abs(sn_ab - sn_in) <= max(tol * 10, 1e-11) * np.abs(sn_in)).all()), 'flux2ab-ivar-vs-flux',
                    'flux^2 * ivar (signal-to-noise squared) changed by the conversion')
         out.count('ab_rows', rows)
+        out.count('ab_repeat_calls', 3)
         out.count('ab_negative_flux', int((pr['flux'] < 0).sum()))
         out.nontrivial = True
 
@@ -554,22 +693,47 @@ class C19(Check):
         single = dt == 'f4'
         lin_tol = 1e-10 if not single else 2e-5
         model_tol = 1e-7 if not single else 1e-4
-        loglam = R.traceset_eval(case['func'], case['coeff'], 0.0, nx - 1.0, nx)
-        smooth = case['noise'] is None
-        if not smooth:
-            loglam = loglam + np.array(case['noise'])
-        wave = 10.0 ** loglam
+        explicit = case.get('wave') is not None
+        if explicit:
+            # spliced / irregular solutions are stored pixel by pixel; the docstring of filter_thru asks for a
+            # "full wavelength solution with the same shape as flux" and nothing more
+            wave = np.array(case['wave'], dtype=float)
+            wave = np.ascontiguousarray(np.broadcast_to(wave, (nT, nx))) if wave.shape[0] == 1 else wave
+            loglam = np.log10(wave)
+            smooth = False
+        else:
+            loglam = R.traceset_eval(case['func'], case['coeff'], 0.0, nx - 1.0, nx)
+            smooth = case['noise'] is None
+            if not smooth:
+                loglam = loglam + np.array(case['noise'])
+            wave = 10.0 ** loglam
         d = np.diff(loglam, axis=1)
-        if not ((d > 0).all(axis=1) | (d < 0).all(axis=1)).all():
+        monotonic = (d > 0).all(axis=1) | (d < 0).all(axis=1)
+        if not explicit and not monotonic.all():
             out.count('ft_generator_nonmonotonic')
             return
         if (d < 0).all(axis=1).any():
             out.count('ft_decreasing_wavelength')
+        if explicit:
+            out.count('ft_spliced_cases')
+            ad = np.abs(d)
+            with np.errstate(all='ignore'):
+                ratio = ad.max(axis=1) / np.where(ad > 0, ad, np.inf).min(axis=1)
+            out.count('ft_dispersion_ratio_ge_10', int((ratio >= 10).sum()))
+            out.count('ft_locally_reversed_or_duplicated', int((~monotonic).sum()))
+            if case.get('wkind') == 'step_in_band':
+                out.count('ft_dispersion_step_inside_band')
+            out.count('ft_single_bright_pixel_traces', nT * ((case.get('f1kind') == 'delta') + (case.get('f2kind') == 'delta')))
         toair = case['toair']
         weff = np.asarray(R.vactoair_ref(wave), dtype=float) if toair else wave
 
+        # the same wavelength image / trace set / mask objects go into every call of the case and must come out
+        # byte-identical: nothing may go stale between calls in one process
+        wimg = wave.copy()
+        wset = self._wset(case) if not explicit else None
+
         def kw(form):
-            k = {'wset': self._wset(case)} if form == 'wset' else {'waveimg': wave.copy()}
+            k = {'wset': wset} if form == 'wset' else {'waveimg': wimg}
             if toair:
                 k['toair'] = True
             return k
@@ -591,6 +755,7 @@ class C19(Check):
             mask = mask01 * float(case['mval'])
         else:
             mask = mask01 * int(case['mval'])
+        mask_before = _bytes(mask)
         out.count('ft_masked_pixels', int((~good).sum()))
         if toair:
             out.count('ft_toair_calls')
@@ -628,6 +793,9 @@ class C19(Check):
         none = rmax == 0
         out.undecide(int((~overlap & ~none).sum()))
         out.count('ft_overlap_bands', int(overlap.sum()))
+        if explicit:
+            npix = (Rr > 0).sum(axis=2).T
+            out.count('ft_bands_with_1_to_3_pixels', int(((npix >= 1) & (npix <= 3) & overlap).sum()))
         out.count('ft_no_overlap_bands', int(none.sum()))
         out.nontrivial = bool(overlap.any())
 
@@ -703,6 +871,24 @@ class C19(Check):
             ra, rb, rab = r1, call(f2p.copy()), call(comb.copy())
         if rb is None or rab is None:
             return
+        # the second image and the combination are weighted means too
+        for (rr, vv, nm) in ((rb, v2, 'second image'), (rab, comb.astype(float), 'combined image')):
+            svv = float(np.abs(vv).max()) or 1.0
+            eps = 1e-12 * svv if not single else 1e-5 * svv
+            for t in range(nT):
+                sel = good[t] if case['lin_masked'] else np.ones(nx, bool)
+                lo, hi = vv[t][sel].min(), vv[t][sel].max()
+                okb = (rr[t] >= lo - eps) & (rr[t] <= hi + eps)
+                out.expect(bool(okb[overlap[t]].all()), 'filter-bounds', 'trace %d (%s%s): outside min/max of the flux of its trace' % (
+                    t, nm, ', mask given' if case['lin_masked'] else ''), res=rr[t], lo=lo, hi=hi)
+                if not case['lin_masked']:
+                    for b in range(5):
+                        if overlap[t, b]:
+                            sup = R.dilate(Rr[b, t] > 0)
+                            lo, hi = vv[t][sup].min(), vv[t][sup].max()
+                            out.expect(lo - eps <= rr[t, b] <= hi + eps, 'filter-bounds',
+                                       'trace %d band %s (%s): %.17g outside [%.17g, %.17g] of the flux under the response' % (
+                                           t, R.BANDS[b], nm, rr[t, b], lo, hi))
         sc = abs(a) * s1 + abs(b_) * s2
         # the combined image was rounded to the flux dtype; account for exactly that rounding through the bound
         tol = lin_tol * sc
@@ -729,13 +915,19 @@ class C19(Check):
             return
         out.expect(np.array_equal(r1b, r1) and np.array_equal(f1, f1p), 'filter-repeat',
                    'second call on the same flux image differs from the first (flux image modified: %s)' % (not np.array_equal(f1, f1p)))
+        same = _bytes(wimg) == _bytes(wave) and _bytes(mask) == mask_before and _bytes(f1) == _bytes(f1p)
+        if wset is not None:
+            same = same and _bytes(wset.coeff) == _bytes(np.array(case['coeff'], dtype=float)) and \
+                float(wset.xmin) == 0.0 and float(wset.xmax) == nx - 1.0
+        out.expect(same, 'filter-repeat', 'filter_thru changed one of its arguments (waveimg / wset / mask / flux) in place')
+        out.count('ft_inputs_unchanged')
         out.info['overlap_bands'] = int(overlap.sum())
         out.info['res'] = r1
 
     # ------------------------------------------------------------------ misc
     def summarise(self, case):
         c = dict(case)
-        for k in ('f1', 'f2', 'mask', 'noise', 'flux', 'ivar', 'mag'):
+        for k in ('f1', 'f2', 'mask', 'noise', 'flux', 'ivar', 'mag', 'wave'):
             if c.get(k) is not None:
                 c[k] = '<%d rows; first: %s>' % (len(c[k]), str(c[k][0][:4]))
         if 'lam' in c and len(c['lam']) > 8:
